@@ -4,6 +4,7 @@ package report
 
 import (
 	"encoding/json"
+	"errors"
 	"sync"
 	"sync/atomic"
 	"testing"
@@ -31,8 +32,12 @@ type vfSRScript struct {
 		T    int64  `json:"t"`
 		K    int    `json:"k"`
 		Rate uint32 `json:"rate"`
+		// WFail (report): the RTCP writer refuses the writes of this tick
+		WFail bool `json:"wfail"`
 	} `json:"steps"`
 }
+
+var errVfSRInjected = errors.New("injected RTCP write failure") //nolint:gochecknoglobals
 
 var vfSREpoch = time.Date(2026, 1, 1, 0, 0, 0, 0, time.UTC) //nolint:gochecknoglobals
 
@@ -92,10 +97,14 @@ func vfRunSR(t *testing.T, sc *vfSRScript, out *vfWriter) {
 	}
 	var mu sync.Mutex
 	var written []rtcp.Packet
+	var failNow atomic.Bool
 	ic.BindRTCPWriter(interceptor.RTCPWriterFunc(func(pkts []rtcp.Packet, _ interceptor.Attributes) (int, error) {
 		mu.Lock()
 		defer mu.Unlock()
 		written = append(written, pkts...)
+		if failNow.Load() { // the transport refuses the writes of this tick (after it has seen the packets)
+			return 0, errVfSRInjected
+		}
 
 		return len(pkts), nil
 	}))
@@ -156,12 +165,14 @@ func vfRunSR(t *testing.T, sc *vfSRScript, out *vfWriter) {
 			written = nil
 			mu.Unlock()
 			clock.Store(st.T)
+			failNow.Store(st.WFail)
 			select {
 			case ticker.c <- time.Time{}: // fire exactly one tick
 			case <-time.After(10 * time.Second):
 				t.Fatalf("VERIF-INFRA sender report loop does not take the tick")
 			}
 			waitIdle() // back at the select: every write of the tick body has happened
+			failNow.Store(false)
 			mu.Lock()
 			got := written
 			written = nil
